@@ -14,11 +14,11 @@ Here is a semantic property that the package is supposed to satisfy:
 
 Your task: write ONE small, realistic change (a plausible regression or refactoring slip a maintainer could make - not sabotage, no dead-obvious breakage) to the source under {wt}/cobyqa (not the tests) that BREAKS this property while
   (1) the package still imports and runs, and
-  (2) the existing test-suite still passes exactly as before: `cd {wt} && PYTHONPATH={wt} /venv/bin/python -m pytest -q -p no:cacheprovider --timeout=900 cobyqa` must report 61 passed, 1 failed (the one failure, test_fixed, fails on the unchanged tree too and must be the only failure).
+  (2) the existing test-suite still passes exactly as before: `cd {wt} && PYTHONPATH={wt} /venv/bin/python -m pytest -q -p no:cacheprovider --timeout=900 cobyqa` must report 62 passed.
 The change must need something SPECIFIC to manifest - {flavour or "a particular multi-step sequence, an unusual but valid input, a particular option combination, or two cooperating sites that each look fine alone"} - and must NOT be exposed at once by ordinary use (e.g. the README/docstring examples must still give their documented answers).
 
 Deliver, inside {wt}:
   - `patch.diff`: the change as `git diff` output (run `git -C {wt} diff -- cobyqa > {wt}/patch.diff`), leaving the change applied in the worktree;
-  - `demo.py`: a small self-contained program using only the public behaviour described in the property (it may wrap user functions to log calls, monkeypatch nothing unless the property itself is about an internal component) that exits 0 on the unchanged code and exits 1 (printing what went wrong) with your change. Verify both: with the change applied, and after `git stash` (then `git stash pop` to restore the change).
+  - `demo.py`: a small self-contained program using only the public behaviour described in the property (it may wrap user functions to log calls, monkeypatch nothing unless the property itself is about an internal component) that exits 0 on the unchanged code and exits 1 (printing what went wrong) with your change. Verify both: with the change applied, and with it reverted by `git -C {wt} apply -R {wt}/patch.diff` (then `git -C {wt} apply {wt}/patch.diff` to restore the change). NEVER use `git stash` (the stash is shared with other worktrees).
   - In your final answer: a 5-10 line description: which file/function you changed, why it breaks the property, what exactly is needed for it to manifest, and the commands you ran with their results (tests: N passed; demo exit codes with and without the change).
 Keep the diff under ~15 changed lines. Do not weaken or delete existing behaviour wholesale; do not special-case a magic input value. Do not create files outside {wt}.""")
